@@ -880,6 +880,49 @@ def _cmp_facts(fn):
     return out
 
 
+def _through_aggs(fn, place, depth=8):
+    """the operand a projected place was built from, when the path of aggregates is unambiguous:
+    `h = Header { total, .. }; opt = Some(h); cf = Continue(opt.Some.0); x = (cf.Continue.0).total`  ->  the operand `total`.
+    A local assigned on several paths is followed only through the one definition that builds the variant the projection names."""
+    place = list(place)
+    for _ in range(depth):
+        if len(place) == 1:
+            return {"m": place}
+        L, ps = place[0], [x for x in place[1:] if x != "*"]
+        if not ps:
+            return {"m": [L]}
+        want = ps[0][2:] if str(ps[0]).startswith("d:") else None
+        defs = fn.defs.get(L, [])
+        aggs = [rv for (b, i, rv) in defs if i != "term" and rv["k"] == "agg" and rv.get("ak") in ("adt", "tuple") and (want is None or rv.get("variant") == want)]
+        uses = [rv for (b, i, rv) in defs if i != "term" and rv["k"] == "use" and "k" not in rv["a"]]
+        others = [1 for (b, i, rv) in defs if not (i != "term" and rv["k"] in ("agg", "use"))]
+        if len(aggs) == 1 and (want is not None or (len(defs) == 1)) and (not others or want is not None) and (want is not None or not uses):
+            rv = aggs[0]
+            rest = ps[1:] if want is not None else ps
+            if not rest or not str(rest[0]).startswith("f:"):
+                return None
+            fname = rest[0][2:]
+            fields = rv.get("fields") or [str(i) for i in range(len(rv["ops"]))]
+            if rv.get("ak") == "tuple":
+                fields = [str(i) for i in range(len(rv["ops"]))]
+            if fname not in fields:
+                return None
+            o = rv["ops"][fields.index(fname)]
+            if "k" in o:
+                return o
+            place = list(op_place(o)) + rest[1:]
+            continue
+        if len(defs) == 1 and len(uses) == 1:
+            place = list(op_place(uses[0]["a"])) + ps
+            continue
+        if defs and len(uses) == len(defs) and len(set(tuple(op_place(u["a"])) for u in uses)) == 1:
+            # assigned on several paths, every time from the same place (the landing of an inlined helper's return value)
+            place = list(op_place(uses[0]["a"])) + ps
+            continue
+        return None
+    return None
+
+
 def canon(fn, op):
     """canonical symbol for an operand: ('c', int) or ('l', local-id) following copies/moves/widening casts"""
     v = const_int(op)
@@ -889,12 +932,23 @@ def canon(fn, op):
     if p is None:
         return None
     if len(p) != 1:
+        o2 = _through_aggs(fn, p)
+        if o2 is not None and (("k" in o2) or len(op_place(o2)) == 1):
+            return canon(fn, o2)
         return ("p", tuple(p))
     l = p[0]
     for _ in range(20):
-        if fn.local_name(l) or 1 <= l <= fn.arg_count:
+        if 1 <= l <= fn.arg_count:
             return ("l", l)
         d = fn.single_def(l)
+        if fn.local_name(l):
+            # a named variable stands for itself, unless it is bound once to a member of an aggregate whose construction is in view
+            # (`let Header { total, .. } = parse(..)?` with parse analysed inside this function): then it is that member
+            o2 = None
+            if d and d[1] != "term" and d[2]["k"] == "use" and "k" not in d[2]["a"] and len(fn.defs.get(l, ())) == 1 and len(op_place(d[2]["a"])) > 1:
+                o2 = _through_aggs(fn, op_place(d[2]["a"]))
+            if o2 is None or "k" in o2 or len(op_place(o2)) != 1:
+                return ("l", l)
         if not d or d[1] == "term":
             return ("l", l)
         rv = d[2]
@@ -903,10 +957,22 @@ def canon(fn, op):
             if v is not None:
                 return ("c", v)
             pp = op_place(rv["a"])
+            if pp is not None and len(pp) != 1:
+                o2 = _through_aggs(fn, pp)
+                if o2 is not None and "k" in o2 and const_int(o2) is not None:
+                    return ("c", const_int(o2))
+                if o2 is not None and "k" not in o2 and len(op_place(o2)) == 1:
+                    l = op_place(o2)[0]
+                    continue
             if pp is None or len(pp) != 1:
                 return ("p", tuple(pp)) if pp else ("l", l)
             l = pp[0]
             continue
+        if rv["k"] == "cast" and str(rv.get("ck", "")).startswith("IntToInt"):
+            # `MAX as usize` of a small non-negative constant keeps its value
+            v = const_int(rv["a"])
+            if v is not None and 0 <= v < 128:
+                return ("c", v)
         return ("l", l)
     return ("l", l)
 
